@@ -608,7 +608,10 @@ func c15Run(id int, b c15Beh, conc c15Conc, root string, _ []string) (res c15Res
 			}
 			ch, err = c15Open(live, conc.ts(s.T))
 			if err != nil {
-				return fail("step %d reopen: %v", i, err)
+				// the head cannot restart on what truncation left behind
+				res.viol = append(res.viol, [2]string{"restart:error", fmt.Sprintf("behaviour %d step %d: Head.Init after restart fails: %v", id, i, err)})
+				ch = &c15Head{h: h}
+				return res
 			}
 			if got := ch.unknownRefs(); got != s.Unk && got < s.Unk-1 {
 				drift("step %d Restart: %d unknown refs, model %d", i, got, s.Unk)
